@@ -466,7 +466,7 @@ type Verdict struct {
 	Drift string
 }
 
-var verdictRe = regexp.MustCompile(`^<<"VERDICT", "([^"]*)", "(.*)", "(.*)">>$`)
+var verdictRe = regexp.MustCompile(`^"VERDICT\|([^|]*)\|(.*)\|(.*)"$`)
 var violRe = regexp.MustCompile(`\[prop \|-> \\?"([^"\\]+)\\?", sig \|-> \\?"([^"\\]+)\\?"\]`)
 
 func Evaluate(hs []History) (map[string]Verdict, int64, error) {
